@@ -13,6 +13,7 @@
   Core Lean only.
 -/
 import OpmVerif.Model.Scan
+import OpmVerif.Gen.RawConsts
 
 namespace OpmVerif.DeckWrite
 open OpmVerif.Lex OpmVerif.Tok OpmVerif.Scan
@@ -44,13 +45,16 @@ def valTok (fmt : Bytes → Bytes) : Val → Bytes
   | .udaStr s => quoted s
   | .dummy => []
 
-/-- tokens the writer emits for the values of a record; `dc` = `default_count`. -/
-def emitToks (fmt : Bytes → Bytes) : Nat → Vals → List Bytes
-  | _, [] => []
+/-- tokens the writer emits for the values of a record; `dc` = `default_count`.
+`flush`: what `end_record` does with defaults still pending — the translator reads it off
+DeckOutput.cpp (`Gen.RawConsts.outFlushPendingDefaults`): `false` = dropped, `true` =
+written as a final `n*`. -/
+def emitToks (fmt : Bytes → Bytes) (flush : Bool) : Nat → Vals → List Bytes
+  | dc, [] => if flush ∧ dc ≠ 0 then [starTok dc] else []
   | dc, (v, st) :: r =>
     if st = .deck then
-      (if dc = 0 then [] else [starTok dc]) ++ valTok fmt v :: emitToks fmt 0 r
-    else emitToks fmt (dc + 1) r
+      (if dc = 0 then [] else [starTok dc]) ++ valTok fmt v :: emitToks fmt flush 0 r
+    else emitToks fmt flush (dc + 1) r
 
 def columns : Nat := 7
 
@@ -66,12 +70,12 @@ def layout (split : Bool) : Nat → List Bytes → Bytes
   | rc, t :: ts => sepBefore split rc ++ t ++ layout split (rowAfter split rc) ts
 
 /-- the record view the parser will see again: everything before the slash. -/
-def writtenRecordText (fmt : Bytes → Bytes) (split : Bool) (r : List Vals) : Bytes :=
-  layout split 0 (emitToks fmt 0 r.flatten) ++ [32]
+def writtenRecordText (fmt : Bytes → Bytes) (flush split : Bool) (r : List Vals) : Bytes :=
+  layout split 0 (emitToks fmt flush 0 r.flatten) ++ [32]
 
 /-- `DeckRecord::write`: bytes put on the stream. -/
-def writeRecord (fmt : Bytes → Bytes) (split : Bool) (r : List Vals) : Bytes :=
-  writtenRecordText fmt split r ++ [47, 10]
+def writeRecord (fmt : Bytes → Bytes) (flush split : Bool) (r : List Vals) : Bytes :=
+  writtenRecordText fmt flush split r ++ [47, 10]
 
 def idFmt (t : Bytes) : Bytes := t
 
